@@ -1,9 +1,9 @@
 #!/bin/bash
 # msweep.sh <patch.diff> <CNN> [CNN...] — like mutant.sh but fully isolated: applies the patch to a scratch worktree of /repo
-# (/tmp/msb/repo) and runs a scratch copy of the harness (/tmp/msb/verif) built against it. /repo and /verif are not touched.
+# ($SB/repo, SB=${MSB:-/tmp/msb}) and runs a scratch copy of the harness ($SB/verif) built against it. /repo and /verif are not touched.
 set -u
 PATCH=$(readlink -f "$1"); shift
-SB=/tmp/msb
+SB=${MSB:-/tmp/msb}
 mkdir -p $SB
 if [ ! -d $SB/repo ]; then git -C /repo worktree add -q --detach $SB/repo HEAD || exit 2; fi
 cd $SB/repo && git checkout -q --detach $(git -C /repo rev-parse HEAD) && git checkout -q -- . && git clean -fdq -e target
@@ -11,7 +11,7 @@ if ! git apply --check "$PATCH" 2>/dev/null; then echo "patch does not apply: $P
 git apply "$PATCH"
 mkdir -p $SB/verif
 rsync -a --delete --exclude target --exclude .git --exclude evidence --exclude replays /verif/ $SB/verif/
-sed -i 's|"/repo/|"/tmp/msb/repo/|g' $SB/verif/harness/Cargo.toml
+sed -i "s|\"/repo/|\"$SB/repo/|g" $SB/verif/harness/Cargo.toml
 for ID in "$@"; do
 	OUT=$(cd $SB/verif && ./check.sh "$ID" ${TIER:-quick} 2>&1)
 	RC=$?
